@@ -108,5 +108,19 @@ for pk, hf in [("bn254", "harness/C05/bngt.go"), ("bn256", "harness/C05/gen_bngt
                           functions=["%s.(*pointGT).%s" % (pk, x) for x in ["Base", "Null", "Set", "Clone", "Add", "Sub", "Neg", "Mul", "Pair"]],
                           bound="two points obtained by %s, one mutating call (%s) on the first; arbitrary element values" % (hn, mn),
                           tiers=(["quick", "thorough"] if mn in ("Add", "Set-then-Add") and hn in ("Base", "Null", "Set", "Clone", "MulBase") else ["thorough"])))
+H20 = []
+for pk, hf in [("bn254", "harness/C05/bngt.go"), ("bn256", "harness/C05/gen_bngt_bn256.go")]:
+    Q = "go.dedis.ch/kyber/v4/pairing/%s." % pk
+    E12 = "(*" + Q + "gfP12)."
+    gtc = {E12 + k: dict(writes=[0], havoc=True, returns="arg0") for k in ["Mul", "Conjugate", "Exp", "SetOne", "SetZero", "Invert", "Square", "Neg", "Add", "Sub"]}
+    for k in ["gfpMul", "gfpAdd", "gfpSub", "gfpNeg"]:
+        gtc[Q + k] = dict(writes=[0], havoc=True)
+    gtr = {Q + "optimalAte": "gtOptimalAte", Q + "miller": "gtMiller", Q + "finalExponentiation": "gtFinalExp"}
+    for k, kn in enumerate(["Base", "Null", "MulBase"]):
+        H20.append(dict(name="%s.GT.shared-read-only.%s" % (pk, kn), pkg="./pairing/" + pk, files=[hf], entry="HarnessGTSharedReadOnly", mode="int", params={"p0": k}, globals_all=True, contracts=gtc, renames=gtr,
+                        race_entry="RaceGTSharedReadOnly", unwind=200, approx_bitops=True,
+                        stubs=["gfP12 arithmetic -> writes only its receiver; optimalAte / miller / finalExponentiation -> return a new element"],
+                        functions=["%s.(*pointGT).%s" % (pk, kn.replace("MulBase", "Mul"))], bound="a fresh point of one's own; arbitrary scalar"))
+json.dump(dict(property="C20", harnesses=H20), open(os.path.join(os.path.dirname(__file__), "..", "specs", "C20gt.json"), "w"), indent=1)
 json.dump(dict(property="C05", harnesses=H), open(os.path.join(os.path.dirname(__file__), "..", "specs", "C05.json"), "w"), indent=1)
 print(len(H))
